@@ -1,5 +1,5 @@
 CONSTANTS
-  Types <- TypesQuick
+  Types <- TypesQuickF
   MaxSet = 3
 SPECIFICATION Spec
 INVARIANT Emit
